@@ -31,6 +31,7 @@ type aqP struct {
 	Decl      string
 	Lex       string // purely lexical serialisation variant (lexVals)
 	HTTP      string // HTTP-level shape (world.HTTPShapes)
+	Sibling   string // another provider instance alive in the same process (world.SiblingKinds)
 	CType     string // "" text/xml; charset=utf-8 | text-xml-bare | soap12 (application/soap+xml) | soapaction (SOAPAction header present)
 	ID        string // "" ok | special
 	IDRaw     *string
@@ -166,7 +167,7 @@ func aqBuild(p aqP) (*world.World, *http.Request, *aqTruth) {
 	case "external":
 		cfg.Attribute = &world.EP{Path: "/ext/attr", URL: "https://external.example/attr"}
 	}
-	w, err := world.New(cfg)
+	w, err := world.WithSibling(p.Sibling, func() (*world.World, error) { return world.New(cfg) })
 	if err != nil {
 		panic(err)
 	}
@@ -432,6 +433,8 @@ func (p *aqP) set(name, val string) {
 		p.Lex = val
 	case "HTTP":
 		p.HTTP = val
+	case "Sibling":
+		p.Sibling = val
 	case "CType":
 		p.CType = val
 	case "ID":
